@@ -13,6 +13,15 @@ from typing import Dict, List, Optional, Tuple
 from .rustlex import Item, Tok, body_loops, loop_body_open, match_close, _next_sig
 
 
+# iterator / string methods known to have NO contract in this vstd or in contracts/std_prelude.rs (non-exhaustive)
+UNSPECIFIED_STD = {'position', 'rposition', 'fold', 'try_fold', 'filter_map', 'find_map', 'flat_map', 'flatten', 'max', 'min', 'max_by_key', 'min_by_key',
+                   'sum', 'product', 'last', 'nth', 'skip_while', 'take_while', 'step_by', 'chain', 'cycle', 'peekable', 'scan', 'inspect',
+                   'partition', 'reduce', 'rfind', 'rev_find', 'dedup', 'retain', 'sort', 'sort_by', 'sort_by_key', 'sort_unstable', 'drain', 'windows', 'chunks',
+                   'trim', 'trim_start', 'trim_end', 'strip_prefix', 'strip_suffix', 'starts_with', 'ends_with', 'replace', 'to_uppercase',
+                   'char_indices', 'bytes', 'lines', 'split_whitespace', 'rsplit', 'splitn', 'matches', 'eq_ignore_ascii_case', 'values', 'values_mut', 'keys',
+                   'entry', 'or_default', 'or_insert', 'or_insert_with', 'get_or_insert_with', 'binary_search', 'concat', 'join'}
+
+
 class AnchorLost(Exception):
     """an anchor (item path, loop ordinal, text pattern) is missing or ambiguous in /repo's current
     tree: the check is inconclusive (exit 2), never an alarm"""
@@ -50,6 +59,7 @@ class Out:
         self.dropped: List[str] = []
         self.uncontracted: List[str] = []
         self.imported: List[str] = []
+        self.unconstrained: Dict[str, List[str]] = {}
         self._cur_fn: Optional[str] = None
 
     # -- low level ------------------------------------------------------------------------------
@@ -446,6 +456,32 @@ def splice_fn(out: Out, it: Item, file: str, fid: str, *, ret: str = 'res',
         replace[cl] = (cl + 1, '')
         out.dropped.append(f"{fid}: `{' '.join(it.src[toks[ta].start:toks[tp].start].split())}(|{toks[k2].text}| {{..}})` ({file}:{it.line_of(a)}) "
                            f"presented as `for {toks[k2].text} in <unconstrained {d['type']}> {{..}}`; the closure body is kept")
+
+    # ---- results Verus knows nothing about: (a) std methods without a contract, (b) closures without a postcondition.
+    # A proof that depends on them fails for no semantic reason, so failures of THIS function are then undecided (exit 2).
+    if not imported:
+        dropped = [(a_, b_[0]) for a_, b_ in replace.items()]
+        def _live(k_):
+            return not any(a_ <= k_ < b_ for a_, b_ in dropped)
+        notes = out.unconstrained.setdefault(fid, [])
+        for k in range(it.open, it.last):
+            t = toks[k]
+            if not _live(k):
+                continue
+            if t.kind == 'ident' and t.text in UNSPECIFIED_STD and toks[_prev_sig(toks, k - 1)].text == '.' and toks[_next_sig(toks, k + 1)].text in ('(', '::'):
+                notes.append(f'std method `.{t.text}(..)` has no contract ({file}:{it.line_of(t.start)})')
+            if t.kind == 'punct' and t.text in ('|', '||') and toks[_prev_sig(toks, k - 1)].text in ('(', ',', '=', '{', ';', 'move', 'return'):
+                e = k
+                if t.text == '|':
+                    e = k + 1
+                    while e < it.last and toks[e].text != '|':
+                        e += 1
+                nxt = _next_sig(toks, e + 1)
+                if toks[nxt].text == '->' or any(inline.get(x, '').lstrip().startswith('->') for x in range(e + 1, nxt + 1)):
+                    continue
+                notes.append(f'closure without a postcondition at {file}:{it.line_of(t.start)}')
+        if not notes:
+            del out.unconstrained[fid]
 
     cuts = sorted(set(ins) | set(inline) | set(replace))
     cur = it.open
